@@ -1764,3 +1764,37 @@ func (g *genCtx) tmplHeal() {
 		ask()
 	}
 }
+
+// tmplSiblingRejections: a Provide to a parent that is acyclic in the parent and
+// in an earlier-created child but closes a cycle in the view of a later-created
+// sibling (rejected); right after it, a Provide to the earlier child that
+// closes a cycle there (must be rejected as well), then the earlier child's
+// keys are requested. Whatever a verification remembers about a scope's graph
+// must not survive a rejection found in another scope.
+func (g *genCtx) tmplSiblingRejections() {
+	if g.ft.NT < 4 || g.h.Cfg.Defer {
+		return
+	}
+	parent := g.pickScope()
+	g.addOp(Op{Kind: OpScope, Scope: parent, Tag: "tmpl"})
+	c1 := g.m.AddScope(parent)
+	g.addOp(Op{Kind: OpScope, Scope: parent, Tag: "tmpl"})
+	c2 := g.m.AddScope(parent)
+	p := g.r.Perm(g.ft.NT)
+	k1, k2, k3, k4 := p[0], p[1], p[2], p[3]
+	// earlier child: half of a cycle, accepted
+	g.simpleCtor(c1, []int{k4}, k3, false, "sibling-rejections")
+	// later child: a private provider that makes the parent's next registration cyclic in its view only
+	g.simpleCtor(c2, []int{k2}, k1, false, "sibling-rejections")
+	for n := g.r.Intn(3); n > 0; n-- {
+		g.opProvide([]int{parent, c1, c2}[g.r.Intn(3)])
+	}
+	g.simpleCtor(parent, []int{k1}, k2, false, "sibling-rejections") // rejected: cycle in c2's view
+	// the very next verified registration closes the cycle in the earlier child
+	g.simpleCtor(c1, []int{k3}, k4, false, "sibling-rejections") // must be rejected
+	g.simpleInvoke(c1, []int{[]int{k3, k4}[g.r.Intn(2)]}, "sibling-rejections")
+	if g.r.P(0.5) {
+		g.simpleCtor(parent, nil, k2, false, "sibling-rejections") // the rejected key is still free
+		g.simpleInvoke(c2, []int{k1}, "sibling-rejections")
+	}
+}
